@@ -645,6 +645,9 @@ retry:
 	case *types.Named:
 		argType = p.getUnderlying(t)
 		goto retry
+	case *types.Alias:
+		argType = types.Unalias(t)
+		goto retry
 	default:
 		code, pos, end := p.loadExpr(arg.Src)
 		p.panicCodeErrorf(pos, end, "invalid indirect of %s (type %v)", code, t)
@@ -659,7 +662,7 @@ func (p *CodeBuilder) Elem(src ...ast.Node) *CodeBuilder {
 		log.Println("Elem")
 	}
 	arg := p.stk.Get(-1)
-	t, ok := arg.Type.(*types.Pointer)
+	t, ok := types.Unalias(arg.Type).(*types.Pointer)
 	if !ok {
 		code, pos, end := p.loadExpr(arg.Src)
 		p.panicCodeErrorf(pos, end, "invalid indirect of %s (type %v)", code, arg.Type)
@@ -674,7 +677,7 @@ func (p *CodeBuilder) ElemRef(src ...ast.Node) *CodeBuilder {
 		log.Println("ElemRef")
 	}
 	arg := p.stk.Get(-1)
-	t, ok := arg.Type.(*types.Pointer)
+	t, ok := types.Unalias(arg.Type).(*types.Pointer)
 	if !ok {
 		code, pos, end := p.loadExpr(arg.Src)
 		p.panicCodeErrorf(pos, end, "invalid indirect of %s (type %v)", code, arg.Type)
